@@ -33,7 +33,8 @@ def run(model, res, tier):
                      ('R3', 'leap predicates equal the Gregorian rule on all residues mod 400'), ('R4', 'month-length tables agree with the calendar'),
                      ('R5', '#NUM! guards'), ('R6', 'WEEKDAY numbering over 0..6 x types 1..3'),
                      ('R7', 'EDATE month/year arithmetic and day clamp on the target year'), ('R8', 'text parsing formats'),
-                     ('R9', 'no cache or shared state'), ('R10', 'DATEDIF y / m / ym are the component formulas with a borrow on the day')):
+                     ('R9', 'no cache or shared state'), ('R10', 'DATEDIF y / m / ym are the component formulas with a borrow on the day'),
+                     ('R11', 'DAYS(end, start) and DATEDIF(start, end, "d") are serial(end) - serial(start), in that order (the serial is the day count, C13)')):
         res.rule(rid, txt)
     res.trusted += ['hxsa abstract interpreter with linear forms', 'python calendar module as oracle for leap years and month lengths']
     em, singles = error_singletons(model)
@@ -46,6 +47,7 @@ def run(model, res, tier):
     H.safely(res, 'R6', 'WEEKDAY', _weekday, model, res, opaque, E)
     H.safely(res, 'R7', 'EDATE', _edate, model, res, opaque, E)
     H.safely(res, 'R10', 'DATEDIF', _datedif, model, res, opaque, E)
+    H.safely(res, 'R11', 'DAYS', _days, model, res, opaque, E)
     _formats(model, res)
     keys = []
     for n in ('DATE', 'TIME', 'YEAR', 'MONTH', 'DAY', 'HOUR', 'MINUTE', 'SECOND', 'DAYS', 'DATEDIF', 'EDATE', 'WEEKDAY', 'DATEVALUE', 'TIMEVALUE'):
@@ -597,3 +599,43 @@ def _is_lin(v, coeffs, const):
     if isinstance(v, Const):
         return not coeffs and v.value == const
     return isinstance(v, Aff) and dict((a, int(b)) for a, b in v.coeffs.items()) == coeffs and v.const == const
+
+
+def _days(model, res, opaque, E):
+    def is_diff(v, wrap=None):
+        if wrap is not None:
+            if not (isinstance(v, Atom) and v.op in wrap and len(v.args) == 1):
+                return False
+            v = v.args[0]
+        if not (isinstance(v, Atom) and v.op == 'sub' and len(v.args) == 2):
+            return False
+        a, b = v.args
+        return isinstance(a, Atom) and a.op == 'serial' and getattr(a.args[0], 'name', None) == 'E' and \
+            isinstance(b, Atom) and b.op == 'serial' and getattr(b.args[0], 'name', None) == 'S'
+    m, f = model.registered('DAYS')
+    outs = _runs(model, 'DAYS', lambda: [Sym('datetime', 'E'), Sym('datetime', 'S')], opaque)
+    vals = [o for o in outs if not o.imprecise]
+    ok = bool(vals) and all(o.kind == 'return' and is_diff(o.value) for o in vals)
+    res.ob('R11', 'DAYS', 'DAYS(end, start) = serial(end) - serial(start)', ok or not vals, H.describe(outs)[:2])
+    if vals and not ok:
+        res.violation('R11', 'function:DAYS:difference', m.where(f),
+                      'DAYS(end, start) must be serial(end) - serial(start); got %s' % '; '.join(H.describe(vals)[:2]), func=f.name)
+    m, f = model.registered('DATEDIF')
+    outs = _runs(model, 'DATEDIF', lambda: [Sym('datetime', 'S'), Sym('datetime', 'E'), Const('d')], opaque)
+    for o in outs:
+        if o.imprecise:
+            continue
+        before = None
+        for (t, alt, s_) in o.notes:
+            if isinstance(s_, Atom) and s_.op == 'lt' and [getattr(a, 'name', None) for a in s_.args] == ['S', 'E']:
+                before = bool(alt)
+            if isinstance(s_, Atom) and s_.op == 'gt' and [getattr(a, 'name', None) for a in s_.args] == ['E', 'S']:
+                before = bool(alt)
+        if not before:
+            continue
+        ok = o.kind == 'return' and (is_diff(o.value, wrap=('int', 'math.floor', 'math.trunc')) or is_diff(o.value))
+        res.ob('R11', 'DATEDIF', 'unit d with start < end', ok, repr(o.value)[:80])
+        if not ok:
+            res.violation('R11', 'function:DATEDIF:unit-d', m.where(f),
+                          'DATEDIF(start, end, "d") with start < end must be the whole number of days serial(end) - serial(start); got %r'
+                          % (o.value,), func=f.name)
